@@ -2,6 +2,10 @@
 // the flag and default-option constants, the two bufio buffer sizes, and structural facts about guards the
 // hand-written model Model/Qdb.lean mirrors. Props/C19.lean restates them against the model's definitions
 // (theorem model_matches_source_facts), so an edit to one of these places breaks a kernel-checked theorem.
+// The structural facts are tripwires (necessary shapes), not a translation: the two guards are compared with the expected
+// guard as boolean functions of their comparison atoms (equivalent rewritings pass, an added / dropped / re-associated
+// term does not), defrag must assign a new map to PendingRecords, the Browse callbacks must hand the walk result itself to
+// aply_browsing_flags. Everything else of the code is tied by the differential run (go/cmd/c19) only.
 package main
 
 import (
@@ -27,18 +31,6 @@ func src(f *vtrans.File, n ast.Node) string {
 	return strings.Join(strings.Fields(b.String()), "")
 }
 
-// all `if` conditions of a function body, printed without white space
-func ifConds(f *vtrans.File, fd *ast.FuncDecl) []string {
-	var out []string
-	ast.Inspect(fd.Body, func(n ast.Node) bool {
-		if s, ok := n.(*ast.IfStmt); ok {
-			out = append(out, src(f, s.Cond))
-		}
-		return true
-	})
-	return out
-}
-
 // sizes passed to bufio.NewWriterSize inside a function
 func bufSizes(f *vtrans.File, fd *ast.FuncDecl) []uint64 {
 	var out []uint64
@@ -55,11 +47,160 @@ func bufSizes(f *vtrans.File, fd *ast.FuncDecl) []uint64 {
 	return out
 }
 
-func assignsTo(f *vtrans.File, fd *ast.FuncDecl, lhs string) bool {
+// ---------------------------------------------------------------- guards as boolean functions
+// A guard is compared with the expected one as a BOOLEAN FUNCTION of its comparison atoms (truth table over the union of
+// the atoms found and the atoms expected), not as text: `a || b`, `b || a`, `!(!a && !b)` and `!(x == nil && y == z)` are
+// the same guard; `a || b && c`, `a && b || c`, a dropped or an added disjunct are not (an atom the expected guard does
+// not know is a free variable, so any guard that really depends on it differs). Atoms: `x != y` (operands in
+// lexical order; `x == y` is its negation; `x > 0` is read as `x != 0` — the fields compared here are unsigned);
+// any other leaf expression is an atom of its own text.
+
+func stripP(x ast.Expr) ast.Expr {
+	for {
+		p, ok := x.(*ast.ParenExpr)
+		if !ok {
+			return x
+		}
+		x = p.X
+	}
+}
+
+func neqAtom(l, r string) string {
+	if l > r {
+		l, r = r, l
+	}
+	return l + "!=" + r
+}
+
+// guardAtom: (atom name, negated) for a leaf of a guard
+func guardAtom(f *vtrans.File, x ast.Expr) (string, bool) {
+	if b, ok := x.(*ast.BinaryExpr); ok {
+		l, r := src(f, stripP(b.X)), src(f, stripP(b.Y))
+		switch b.Op.String() {
+		case "!=":
+			return neqAtom(l, r), false
+		case "==":
+			return neqAtom(l, r), true
+		case ">":
+			if r == "0" {
+				return neqAtom(l, r), false
+			}
+		case "<":
+			if l == "0" {
+				return neqAtom(l, r), false
+			}
+		}
+	}
+	return src(f, x), false
+}
+
+func guardAtoms(f *vtrans.File, x ast.Expr, into map[string]bool) {
+	x = stripP(x)
+	switch e := x.(type) {
+	case *ast.BinaryExpr:
+		if op := e.Op.String(); op == "&&" || op == "||" {
+			guardAtoms(f, e.X, into)
+			guardAtoms(f, e.Y, into)
+			return
+		}
+	case *ast.UnaryExpr:
+		if e.Op.String() == "!" {
+			guardAtoms(f, e.X, into)
+			return
+		}
+	}
+	a, _ := guardAtom(f, x)
+	into[a] = true
+}
+
+func guardEval(f *vtrans.File, x ast.Expr, asg map[string]bool) bool {
+	x = stripP(x)
+	switch e := x.(type) {
+	case *ast.BinaryExpr:
+		switch e.Op.String() {
+		case "&&":
+			return guardEval(f, e.X, asg) && guardEval(f, e.Y, asg)
+		case "||":
+			return guardEval(f, e.X, asg) || guardEval(f, e.Y, asg)
+		}
+	case *ast.UnaryExpr:
+		if e.Op.String() == "!" {
+			return !guardEval(f, e.X, asg)
+		}
+	}
+	a, neg := guardAtom(f, x)
+	return asg[a] != neg
+}
+
+// sameGuard: is cond the boolean function `want` (over the atoms `names`)?
+func sameGuard(f *vtrans.File, cond ast.Expr, names []string, want func(v map[string]bool) bool) bool {
+	set := map[string]bool{}
+	guardAtoms(f, cond, set)
+	for _, n := range names {
+		set[n] = true
+	}
+	var all []string
+	for n := range set {
+		all = append(all, n)
+	}
+	if len(all) > 12 {
+		die(fmt.Errorf("guard %q has %d atoms", src(f, cond), len(all)))
+	}
+	for m := 0; m < 1<<len(all); m++ {
+		asg := map[string]bool{}
+		for i, n := range all {
+			asg[n] = m&(1<<i) != 0
+		}
+		if guardEval(f, cond, asg) != want(asg) {
+			return false
+		}
+	}
+	return true
+}
+
+func recvName(fd *ast.FuncDecl) string {
+	if fd.Recv != nil && len(fd.Recv.List) == 1 && len(fd.Recv.List[0].Names) == 1 {
+		return fd.Recv.List[0].Names[0].Name
+	}
+	return "?"
+}
+
+// all `if` statements of a function body
+func ifStmts(fd *ast.FuncDecl) []*ast.IfStmt {
+	var out []*ast.IfStmt
+	ast.Inspect(fd.Body, func(n ast.Node) bool {
+		if s, ok := n.(*ast.IfStmt); ok {
+			out = append(out, s)
+		}
+		return true
+	})
+	return out
+}
+
+func mentions(n ast.Node, ident string) bool {
+	found := false
+	ast.Inspect(n, func(x ast.Node) bool {
+		if id, ok := x.(*ast.Ident); ok && id.Name == ident {
+			found = true
+		}
+		return true
+	})
+	return found
+}
+
+// resetsMap: the function assigns to `lhs` a NEW map (a make(...) call or a composite literal) — not itself, not another variable
+func resetsMap(f *vtrans.File, fd *ast.FuncDecl, lhs string) bool {
 	found := false
 	ast.Inspect(fd.Body, func(n ast.Node) bool {
-		if a, ok := n.(*ast.AssignStmt); ok && len(a.Lhs) == 1 && src(f, a.Lhs[0]) == lhs {
-			found = true
+		if a, ok := n.(*ast.AssignStmt); ok && len(a.Lhs) == 1 && len(a.Rhs) == 1 && src(f, a.Lhs[0]) == lhs {
+			switch r := stripP(a.Rhs[0]).(type) {
+			case *ast.CallExpr:
+				if id, ok := r.Fun.(*ast.Ident); ok && id.Name == "make" {
+					found = true
+				}
+			case *ast.CompositeLit:
+				found = len(r.Elts) == 0
+			}
 		}
 		return true
 	})
@@ -152,6 +293,30 @@ func browseVisitOrder(f *vtrans.File, name string) (bool, error) {
 	if iW < 0 || iA < 0 || iF < 0 {
 		return false, fmt.Errorf("%s: walk / aply_browsing_flags / freerec not all found at the top level of the visit (%d %d %d)", name, iW, iA, iF)
 	}
+	// the flags applied are the walk function's answer itself: `res := walk(…)` … `.aply_browsing_flags(res)` (or the call
+	// as the argument) — not a masked or otherwise rewritten word
+	resName := ""
+	if a, ok := body.List[iW].(*ast.AssignStmt); ok && len(a.Lhs) == 1 && len(a.Rhs) == 1 {
+		if c, ok := a.Rhs[0].(*ast.CallExpr); ok && strings.HasSuffix(src(f, c.Fun), "walk") {
+			resName = src(f, a.Lhs[0])
+		}
+	}
+	argOK := false
+	ast.Inspect(body.List[iA], func(n ast.Node) bool {
+		if c, ok := n.(*ast.CallExpr); ok && strings.HasSuffix(src(f, c.Fun), ".aply_browsing_flags") && len(c.Args) == 1 {
+			arg := stripP(c.Args[0])
+			if id, ok := arg.(*ast.Ident); ok && id.Name == resName && resName != "" {
+				argOK = true
+			}
+			if cc, ok := arg.(*ast.CallExpr); ok && strings.HasSuffix(src(f, cc.Fun), "walk") {
+				argOK = true
+			}
+		}
+		return true
+	})
+	if !argOK {
+		return false, nil
+	}
 	last := iA
 	if iF > last {
 		last = iF
@@ -206,7 +371,7 @@ func main() {
 		die(fmt.Errorf("defrag: expected exactly one bufio.NewWriterSize, found %d", len(bs)))
 	}
 	fmt.Fprintf(&sb, "def defragBufSize : Nat := %d\n", bs[0])
-	defragClears := assignsTo(db, fd, "db.PendingRecords")
+	defragClears := resetsMap(db, fd, "db.PendingRecords")
 	wd, err := ix.Func("QdbIndex", "writedatfile")
 	if err != nil {
 		die(err)
@@ -222,18 +387,20 @@ func main() {
 	if err != nil {
 		die(err)
 	}
-	conds := ifConds(db, fr)
-	if len(conds) != 1 {
-		die(fmt.Errorf("freerec: expected one if statement, found %d", len(conds)))
+	frIfs := ifStmts(fr)
+	if len(frIfs) != 1 {
+		die(fmt.Errorf("freerec: expected one if statement, found %d", len(frIfs)))
 	}
-	var frGuard string
-	switch {
-	case strings.Contains(conds[0], "NO_CACHE") && strings.Contains(conds[0], "&&") && strings.Contains(conds[0], "datpos!=0"):
-		frGuard = "true"
-	case conds[0] == "(idx.flags&NO_CACHE)!=0":
-		frGuard = "false"
-	default:
-		die(fmt.Errorf("freerec: guard %q is not a shape the model knows", conds[0]))
+	// the guard must BE (flags&NO_CACHE != 0) && (datpos != 0) as a boolean function; anything else — the old defect
+	// `(flags&NO_CACHE) != 0` alone, an added disjunct, a swapped connective — is "false" and breaks model_matches_source_facts
+	frGuard := "false"
+	{
+		rv := recvName(fr)
+		a, b := neqAtom(rv+".flags&NO_CACHE", "0"), neqAtom(rv+".datpos", "0")
+		if sameGuard(db, frIfs[0].Cond, []string{a, b}, func(v map[string]bool) bool { return v[a] && v[b] }) &&
+			frIfs[0].Else == nil && containsCall(db, frIfs[0].Body, ".FreeData") {
+			frGuard = "true"
+		}
 	}
 	fmt.Fprintf(&sb, "/-- freerec frees only records that are on disk (`&& idx.datpos != 0`) -/\ndef freerecChecksDatpos : Bool := %s\n", frGuard)
 	// loadlog: header check
@@ -241,17 +408,37 @@ func main() {
 	if err != nil {
 		die(err)
 	}
+	// the header is read by `<er> := binary.Read(idx.file, …, &<iseq>)`; the guard that discards the log must BE
+	// <er> != nil || <iseq> != idx.VersionSequence as a boolean function
+	erName, seqName := "", ""
+	ast.Inspect(ll.Body, func(n ast.Node) bool {
+		if a, ok := n.(*ast.AssignStmt); ok && len(a.Lhs) == 1 && len(a.Rhs) == 1 {
+			if c, ok := a.Rhs[0].(*ast.CallExpr); ok && src(ix, c.Fun) == "binary.Read" && len(c.Args) == 3 {
+				if u, ok := c.Args[2].(*ast.UnaryExpr); ok && u.Op.String() == "&" {
+					erName, seqName = src(ix, a.Lhs[0]), src(ix, u.X)
+				}
+			}
+		}
+		return true
+	})
+	if erName == "" || erName == "_" {
+		die(fmt.Errorf("loadlog: `er := binary.Read(…, &iseq)` not found (the model discards a log whose header cannot be read)"))
+	}
 	hdr := ""
-	for _, c := range ifConds(ix, ll) {
-		switch {
-		case strings.Contains(c, "iseq!=idx.VersionSequence") && strings.Contains(c, "!=nil||"):
+	for _, st := range ifStmts(ll) {
+		if !mentions(st.Cond, seqName) {
+			continue
+		}
+		a, b := neqAtom(erName, "nil"), neqAtom(seqName, recvName(ll)+".VersionSequence")
+		if sameGuard(ix, st.Cond, []string{a, b}, func(v map[string]bool) bool { return v[a] || v[b] }) &&
+			containsCall(ix, st.Body, "os.Remove") && containsReturn(st.Body) {
 			hdr = "true"
-		case c == "iseq!=idx.VersionSequence":
+		} else if hdr == "" {
 			hdr = "false"
 		}
 	}
 	if hdr == "" {
-		die(fmt.Errorf("loadlog: sequence check not found in a shape the model knows"))
+		die(fmt.Errorf("loadlog: no guard on the sequence number read from the log header"))
 	}
 	fmt.Fprintf(&sb, "/-- loadlog discards a log whose header cannot be read (`er != nil ||`) -/\ndef loadlogRejectsHeaderError : Bool := %s\n", hdr)
 	fmt.Fprintf(&sb, "/-- defrag() resets db.PendingRecords -/\ndef defragClearsPending : Bool := %v\n", defragClears)
